@@ -217,7 +217,20 @@ func Classify(l *Loop) *Induction {
 		}
 		return outside[0], step, true
 	}
-	switch cond.Op {
+	op := cond.Op
+	// `i != len(X)` with i counting up from 0 by one is `i < len(X)` (a length is never negative)
+	if op == token.NEQ && trueInLoop {
+		if _, isLen := lenOf(cond.Y); isLen {
+			if p, idx := findPhi(cond.X); p != nil && idx == ssa.Value(p) {
+				if start, step, ok := stepOf(p); ok && step == 1 {
+					if s, okc := ConstInt(start); okc && s == 0 {
+						op = token.LSS
+					}
+				}
+			}
+		}
+	}
+	switch op {
 	case token.LSS:
 		if !trueInLoop {
 			break
